@@ -195,7 +195,19 @@ def rule_b(ctx):
             ctx.check(arg_param == 1, rid, "%s:same-signal" % short, "the emulated signal is the registered one", t["sp"], None)
 
 
+def rule_c(ctx):
+    """'shutdown registered first, arming flag second' rests on actions running in registration order — for every registration/removal
+    history: the ordering rules of C02 reported under this property"""
+    from .C02 import rule_b as order_b, rule_c as order_c
+    from .C18 import _Alias
+    ctx.rule("C15.c", "actions of one delivery run in registration order whatever was registered or removed before: ids grow with each registration, "
+                      "the container is ordered by id, the dispatcher iterates it forwards (shared with C02.b / C02.c)", floor=8)
+    order_b(_Alias(ctx, "C15.c"))
+    order_c(_Alias(ctx, "C15.c"))
+
+
 def run(ctx):
+    ctx.guarded("C15.c", rule_c)
     ctx.guarded("C15.a", rule_a)
     ctx.guarded("C15.b", rule_b)
     ctx.note("order of actions within one delivery is C02.b/c; not decided: behaviour over arm/disarm histories (follows from the per-invocation rule), "
